@@ -77,6 +77,9 @@ Snap(sl, fr, rxs, txs, tq, nds) ==
     nodes |-> SetToSeq(DOMAIN nds) ]
 
 \* ------------------------------------------------------------------ the model data plane and one Sess.* method
+\* cause the model data plane attaches to a report for URR id (as the twin of the L1 executor does: volume threshold,
+\* none, time threshold - by id, so that it does not depend on the order in which a session's URRs are walked)
+TrigOfUrr(id) == <<2, 0, 4>>[(id % 3) + 1]
 \* st = [s: session record, sd: its SEID, dp, calls, usars, tok, faults]
 Call(st, o, kind, id) ==
   LET ord == Len(st.calls)
@@ -86,7 +89,7 @@ Call(st, o, kind, id) ==
       inj2 == fresh /\ ord \in st.faults2      \* the rule is installed but the call reports an error
       ok  == ~inj /\ ~inj2 /\ (IF o = "create" THEN key \notin st.dp ELSE key \in st.dp)
       rep == ok /\ kind = "urr" /\ o \in {"remove", "query"}
-      r   == [k |-> "usar", urr |-> id, trig |-> 0, pdr |-> 0, action |-> 0, pkt |-> "", tok |-> st.tok + 1,
+      r   == [k |-> "usar", urr |-> id, trig |-> TrigOfUrr(id), pdr |-> 0, action |-> 0, pkt |-> "", tok |-> st.tok + 1,
               vals |-> ValsOfTok(st.tok + 1)]
       c   == [op |-> o, kind |-> kind, seid |-> SeidStr(st.sd), id |-> id, res |-> IF ok THEN "ok" ELSE IF inj2 THEN "err+" ELSE "err",
               reps |-> IF rep THEN <<r>> ELSE <<>>]
@@ -97,7 +100,8 @@ Call(st, o, kind, id) ==
 
 UrrEnt(s, u) == {x \in s.urrs : x.id = u}
 SetUrr(s, x) == [s EXCEPT !.urrs = {y \in @ : y.id # x.id} \cup {x}]
-Flag(reps, f) == [i \in DOMAIN reps |-> [reps[i] EXCEPT !.trig = f]]
+\* the UPF's mark is added to the cause the data plane reported
+Flag(reps, f) == [i \in DOMAIN reps |-> [reps[i] EXCEPT !.trig = IF BitSet(@, f) THEN @ ELSE @ + f]]
 PdrUrrs(s, p) == {r[2] : r \in {x \in s.prefs : x[1] = p}}
 
 \* Sess.diassociateURR
